@@ -617,6 +617,14 @@ func (r *beRun) walkRule(cycles []cycleRec) {
 				}
 			}
 
+			// a cleanup cycle overlapping the write itself: whether the entry survived is a
+			// question of linearizability (R1 and its classification), not of the walk
+			for _, c := range cycles {
+				if c.call < last.ret && c.ret > last.inv {
+					amb = true
+				}
+			}
+
 			// ExpireAll-ed entries may be cleaned up by a later cycle
 			for _, o := range r.recs {
 				if o.kind == "expireAll" && o.done && o.ret > last.inv {
